@@ -64,7 +64,7 @@ def _job(job):
         m = re.match(r'.*:(\d+): warning, rule cannot be matched', line)
         if m:
             ln = int(m.group(1))
-            hit = [i for i, l in rs.rule_lines.items() if l == ln]
+            hit = [i for i, l in rs.rule_lines.items() if l <= ln <= rs.rule_last_lines.get(i, l)]
             if hit:
                 warned.add(hit[0])
             else:
